@@ -254,3 +254,14 @@ func withTimeout(d time.Duration, f func() error) (err error, hung bool, panicke
 		return nil, true, nil
 	}
 }
+
+// idleHostStdin gives the harness process (the plugin host) a stdin that is open and never delivers anything — a terminal
+// nobody types on, a pipe the parent keeps open — instead of the /dev/null of a batch run, which is at EOF at once.
+var idleStdinKeep []*os.File
+
+func idleHostStdin() {
+	if r, w, err := os.Pipe(); err == nil {
+		idleStdinKeep = append(idleStdinKeep, r, w)
+		os.Stdin = r
+	}
+}
